@@ -22,7 +22,8 @@ def get_const(protocol_version):
         (
             CONST_VERSIONS[const_version]
             for const_version in sorted(CONST_VERSIONS, reverse=True)
-            if AwesomeVersion(protocol_version) >= AwesomeVersion(const_version)
+            # Numeric comparison: 2.0.0 is not lower than 2.0.
+            if not AwesomeVersion(const_version) > AwesomeVersion(protocol_version)
         ),
         "mysensors.const_14",
     )
